@@ -59,7 +59,11 @@ def histories(draw, solvers=("maxmin",), selective=None, limits="some", policies
     cn = st.tuples(st.just("cnst"), bound_c, pol, st.integers(0, 2), lim)
     vr = st.tuples(st.just("var"), penalty0, vbound, st.integers(1, 4))
     ex = st.tuples(st.just("expand"), idx, idx, weight)
-    ops = [cn, vr, vr, ex, ex, ex, ex,
+    # an activity declares its resources when it is created: a "burst" is a variable followed by its expands (v = -1: the
+    # variable created last); free-standing expands only reach variables created since the last solve (the driver skips others)
+    exl = st.tuples(st.just("expand"), idx, st.just(-1), weight)
+    burst = st.tuples(vr, st.lists(exl, min_size=1, max_size=4)).map(lambda t: ("burst", [t[0]] + t[1]))
+    ops = [cn, burst, burst, burst, vr, ex, ex,
            st.tuples(st.just("vbound"), idx, vbound),
            st.tuples(st.just("vpen"), idx, penalty0),
            st.tuples(st.just("vpen"), idx, st.just(0.0)),
@@ -74,7 +78,13 @@ def histories(draw, solvers=("maxmin",), selective=None, limits="some", policies
     pre = [draw(cn) for _ in range(nc0)] + [draw(vr) for _ in range(nv0)]
     pre += [draw(ex) for _ in range(draw(st.integers(1, 10)))]
     rest = draw(st.lists(st.one_of(*ops), min_size=0, max_size=max_ops - len(pre) - 1))
-    allops = [list(o) for o in pre + rest] + [["solve"]]
+    flat = []
+    for o in pre + rest:
+        if o[0] == "burst":
+            flat.extend(o[1])
+        else:
+            flat.append(o)
+    allops = [list(o) for o in flat][:max_ops - 1] + [["solve"]]
     # enforce the stated size limits by construction
     out, ncn, nva = [], 0, 0
     for o in allops:
@@ -316,9 +326,14 @@ def check_fair_bmf(st_, oc, where):
             cap = eff_capacity(c, st_, ci)
             u, sl = usage(st_, ci, c)
             if c["policy"] == 0:
-                sat = True       # fat-pipes are "always saturated" for BMF (they are not shared)
-            else:
-                sat = abs(u - cap) <= 4 * PREC + 1e-9 * cap
+                # a fat-pipe is not shared: its users do not compete, each may take the whole capacity.  "Largest share on
+                # a saturated resource" therefore reads, for a fat-pipe: this variable alone saturates it.
+                if w * v["value"] >= cap * (1 - 4 * PREC) - 1e-9:
+                    ok = True
+                    break
+                why.append("c%d (fat-pipe): own usage %r of %r" % (ci, w * v["value"], cap))
+                continue
+            sat = abs(u - cap) <= 4 * PREC + 1e-9 * cap
             # BMF's "share" of a player on a resource uses the largest single weight it was expanded with
             # (sub-flows of a parallel task on one resource, see System::expand's force_creation note)
             mine = v["wmax"][ci] * v["sg_pen"] * v["value"]
@@ -334,7 +349,8 @@ def check_fair_bmf(st_, oc, where):
                 break
             why.append("c%d: saturated=%s (usage %r of %r) top=%s (mine %r best %r)" % (ci, sat, u, cap, top, mine, best))
         if not ok:
-            oc.bad("bmf-unfair", "%s: variable uid %d (rate %r, bound %r) has no saturated resource where its share is the largest: %s"
+            pens = {u_["sg_pen"] for u_ in st_["var"] if enabled(u_) and consuming(u_)}
+            oc.bad("bmf-unfair:" + ("unit-penalties" if pens == {1.0} else "non-unit-penalties"), "%s: variable uid %d (rate %r, bound %r) has no saturated resource where its share is the largest: %s"
                    % (where, v["uid"], v["value"], v["bound"], "; ".join(why)))
 
 
